@@ -8,7 +8,11 @@
 // its script) x transport {inprocgrpc.Channel, httpgrpc.Channel over
 // common.HandlerRT on httpgrpc.NewServer: real framing of httpgrpc/io.go,
 // half-duplex}; plus two RPCs running concurrently on one channel (all pairs of
-// kinds), made to overlap by two rendezvous points inside the handlers.
+// kinds), made to overlap by two rendezvous points inside the handlers; plus the
+// dimension "the HTTP response is cut" (cut.go): the real server's reply to every
+// (shape, representation, kind, response count, handler outcome) is recorded and
+// replayed to the real client ending after every byte offset, cleanly and with a
+// read error.
 //
 // Oracle (harness.go, onRecv / finishChecks): at every receive return the
 // message obtained is proto.Equal to the message the peer sent at that position
@@ -40,13 +44,19 @@ func inconclusive(msg string) {
 }
 
 func guarded(k kase) outcome {
+	return guardedFn(k.key(), func() outcome { return runCase(k) })
+}
+
+func guardedFn(name string, fn func() outcome) outcome {
 	ch := make(chan outcome, 1)
-	go func() { ch <- runCase(k) }()
+	go func() { ch <- fn() }()
+	t := time.NewTimer(hangGuard)
+	defer t.Stop()
 	select {
 	case o := <-ch:
 		return o
-	case <-time.After(hangGuard):
-		inconclusive(fmt.Sprintf("case %s did not finish within %v (termination is property C05, not decided here)", k.key(), hangGuard))
+	case <-t.C:
+		inconclusive(fmt.Sprintf("case %s did not finish within %v (termination is property C05, not decided here)", name, hangGuard))
 	}
 	panic("unreachable")
 }
@@ -174,6 +184,24 @@ func main() {
 		if k.Engine != "E2" || shapeByName[k.Shape] == nil || kindIdx(k.RPC.Kind) < 0 || (k.Transport != "inproc" && k.Transport != "http") {
 			inconclusive("replay file does not describe a case of the C01 content part")
 		}
+		if k.Cut != nil {
+			if k.Transport != "http" || k.RPC2 != nil || endingIdx(k.Cut.Ending) < 0 {
+				inconclusive("replay file does not describe a cut case of the C01 content part")
+			}
+			if k.Cut.Reply == nil {
+				// a large recording is not embedded: record it anew (single-field shapes, one encoding)
+				base := k
+				base.Cut = nil
+				var rec *reply
+				if o := guardedFn(base.key()+" (recording)", func() outcome { var o outcome; rec, o = record(base); return o }); o.Internal != "" || rec == nil || len(rec.Body) != k.Cut.Len {
+					inconclusive("cannot record the reply the replay file refers to again (the live run no longer yields one reply of that length)")
+				}
+				c := *k.Cut
+				c.Reply = rec
+				k.Cut = &c
+			}
+			k.Cut.Where = k.Cut.Reply.where(k.RPC.Kind, k.Cut.Off)
+		}
 		o := guarded(k)
 		if o.Internal != "" {
 			inconclusive(o.Internal)
@@ -236,12 +264,23 @@ func main() {
 			hits = append(hits, hit{k, f})
 		}
 	}
+	// --- the HTTP response is cut (cut.go)
+	t0 := time.Now()
+	cs := sweepCuts(thorough, func(h hit) { hits = append(hits, h) })
+	if os.Getenv("C01E2_TIMING") != "" {
+		fmt.Fprintf(os.Stderr, "cut sweep: %v, %d bases, %d evals\n", time.Since(t0), cs.bases, cs.evals)
+	}
+	evals += cs.evals + cs.controls
+	frames += cs.frames
+	perClass["http|reply-cut"] = cs.distinct
+	samples = append(samples, cs.samples...)
+
 	for _, r := range group(hits) {
 		what := fmt.Sprintf("[%s] %s", r.first.k.key(), r.first.f.What)
 		if r.n > 1 {
 			what += fmt.Sprintf(" [%d findings of the grammar fall in this class; the replay is the simplest case]", r.n)
 		}
-		rep.Violation(r.fp, what, r.first.k)
+		rep.Violation(r.fp, what, forReplay(r.first.k))
 	}
 
 	classes := map[string]interface{}{}
@@ -256,10 +295,14 @@ func main() {
 	}
 	os.Exit(rep.Finish("exploration", map[string]interface{}{
 		"evaluations":         evals,
-		"distinct_nontrivial": len(distinct),
+		"distinct_nontrivial": len(distinct) + cs.distinct,
 		"rule": "every (shape, sender/receiver representation, RPC kind, request count, response count, handler outcome, transport) of the grammar, and every unordered pair of kinds run concurrently on one channel, " +
 			"is run through the real channel and server. A case is non-trivial when at least one message was obtained by a receiver through the transport and compared with the message sent at that position " +
-			"(in-process: frame through the per-RPC Go channel and the cloner; HTTP: unary body or length-prefixed frame of io.go), or a clause failed; distinct by all case parameters.",
+			"(in-process: frame through the per-RPC Go channel and the cloner; HTTP: unary body or length-prefixed frame of io.go), or a clause failed; distinct by all case parameters. " +
+			"Reply-cut dimension (HTTP): for every (shape, representation pair, kind, response count 0..3, handler outcome) with one request the real server's reply is recorded once and replayed to the real client cut after every offset of the sweep " +
+			"(every byte offset for replies up to cut.all_offsets_up_to_bytes, cut.all_offsets_up_to_bytes_failing_handler when the handler fails; for longer replies every offset within 8 bytes of an end of the body, a frame start / payload start / end, the start or value start of a top-level field of a message, or a power of two >= 512) " +
+			"under every ending the reply can have (eof only without Content-Length; unexpected-eof; reset), plus the complete body followed by a read error for replies without Content-Length. " +
+			"A cut case is non-trivial when the reply is one whose body carries the messages (HTTP 200 without X-GRPC-Status) and the real client had read every byte of the cut body when it returned (measured in the body reader), or a clause failed; distinct by base case, offset and ending.",
 		"samples":                 samples,
 		"exhaustive":              true,
 		"shapes":                  nShapes,
@@ -267,12 +310,21 @@ func main() {
 		"nontrivial_by_class":     classes,
 		"reference_cases_on_grpc": refCases,
 		"reference_disagreements": 0,
-		"engine":                  "E2",
-		"part":                    "content (input dimension) under the ordinary schedule; interleavings are the E1 part",
+		"cut": map[string]interface{}{
+			"base_cases": cs.bases, "base_cases_without_a_single_reply": cs.basesSkipped, "evaluations": cs.evals, "intact_reply_controls": cs.controls,
+			"bases_with_every_offset": cs.allOffsetBases, "bases_with_offset_windows": cs.windowBases, "all_offsets_up_to_bytes": sweepAllBelow(thorough, false), "all_offsets_up_to_bytes_failing_handler": sweepAllBelow(thorough, true), "longest_reply_cut_at_every_offset": cs.maxAll,
+			"nontrivial": cs.distinct, "nontrivial_by_place": cs.byWhere, "nontrivial_by_ending": cs.byEnding,
+		},
+		"engine": "E2",
+		"part":   "content (input dimension) under the ordinary schedule; interleavings are the E1 part",
 	}, []string{
 		"HTTP runs through common.HandlerRT (httptest recorder): the response is complete when RoundTrip returns, so streams are half-duplex and net/http's connection handling is not exercised",
 		"only the ordinary Go schedule is seen here; the two concurrent RPCs are forced to overlap by two rendezvous points in the handlers (before the first request is decoded / received, and before the first response is sent)",
 		"equality is proto.Equal; a dynamic message is judged on its deterministic wire form parsed into the generated type",
 		"the oracle passed on grpc-go v1.57.1 over bufconn for the whole grammar before the library was run (receive limits raised to 64 MiB)",
+		"reply-cut dimension: the reply is replayed by a RoundTripper of the checker (recorded status line and headers, Content-Length kept) after it has taken the whole request; no handler runs during a replay. " +
+			"The recorded bytes are those of this run (the encoding of map fields varies between runs, the set of offsets does not). A reply with Content-Length never ends cleanly before that many bytes, as on any HTTP transport (net/http reports io.ErrUnexpectedEOF); " +
+			"before any cut the intact recording is replayed and must give the client what the live run gave it. The dimension is swept around base cases with one request and is not crossed with the concurrent-pair, gc and reuse cases. " +
+			"Only C01 is judged: messages obtained equal the messages sent position by position, and success only with everything obtained; which error is reported is not looked at",
 	}))
 }
